@@ -95,6 +95,27 @@ class Builder:
     def b_Bytes(self, e, env):
         return pt.Bytes(bytes(e[1]))
 
+    def b_BytesStr(self, e, env):
+        return pt.Bytes(e[1])
+
+    def b_BytesBase(self, e, env):
+        return pt.Bytes(e[1], e[2])
+
+    def b_Addr(self, e, env):
+        return pt.Addr(e[1])
+
+    def b_MethodSig(self, e, env):
+        return pt.MethodSignature(e[1])
+
+    def b_EnumInt(self, e, env):
+        return getattr(getattr(pt, e[1]), e[2])
+
+    def b_TmplBytes(self, e, env):
+        return pt.Tmpl.Bytes(e[1])
+
+    def b_TmplAddr(self, e, env):
+        return pt.Tmpl.Addr(e[1])
+
     def b_TmplInt(self, e, env):
         return pt.Tmpl.Int(e[1])
 
